@@ -104,6 +104,40 @@ def _declaration_mismatch(info):
     t = info.parameters
     out = None
     declared = list(t.kernel_parameters)
+    # first the parsed declaration against the text of the model file itself
+    # (name, units, default, [lower, upper], kind, description)
+    try:
+        import importlib
+        raw = list(getattr(importlib.import_module("sasmodels.models." + info.id), "parameters"))
+    except Exception:
+        raw = []
+    for entry in raw:
+        try:
+            rname, _, rdefault, rlimits, rtype = entry[:5]
+        except (TypeError, ValueError):
+            continue
+        rid = rname.split("[")[0]
+        d = next((k for k in declared if k.id == rid), None)
+        if d is None:
+            out = (rname, "declared in the model file but absent from the parameter table")
+            break
+        if isinstance(rlimits, (list, tuple)) and len(rlimits) == 2 and \
+                all(isinstance(x, (int, float)) for x in rlimits):
+            if tuple(float(x) for x in d.limits) != tuple(float(x) for x in rlimits):
+                out = (rname, "limits are %r, the model file says %r" % (tuple(d.limits), tuple(rlimits)))
+                break
+        if rtype in ("volume", "orientation", "sld", "") and not getattr(d, "is_control", False):
+            want_pd, want_rel = rtype in ("volume", "orientation"), rtype == "volume"
+            if d.type != rtype or bool(d.polydisperse) != want_pd or bool(d.relative_pd) != want_rel:
+                out = (rname, "kind/dispersibility (%r, polydisperse=%r, relative=%r) does not follow from the "
+                              "declared kind %r" % (d.type, d.polydisperse, d.relative_pd, rtype))
+                break
+        if isinstance(rdefault, (int, float)) and getattr(d, "length", 1) == 1 and float(d.default) != float(rdefault):
+            out = (rname, "default is %r, the model file says %r" % (d.default, rdefault))
+            break
+    if out:
+        _DECL[info.id] = out
+        return out
     for p in t.call_parameters[2:2 + t.npars]:
         d = next((k for k in declared if k.id == p.id or
                   (getattr(k, "length", 1) > 1 and re.fullmatch(re.escape(k.id) + r"\d+", p.id))), None)
